@@ -9,6 +9,7 @@ import (
 var harnessOf = map[string]*sim.Harness{
 	"C07": HDKV, "C08": HDKV, "C09": HDKV, "C18": HDKV,
 	"C20": HBatch,
+	"C10": HTimer,
 }
 
 func TestWorker(t *testing.T) {
